@@ -249,6 +249,7 @@ func keyOf(d []byte) []byte {
 var sharedTotalBuf rjson.Buffer
 
 func runTotal(sw *shardWriter, j *jb, data []byte, segs []seg, st *genStats) {
+	data = relayout(data)
 	orig := append([]byte{}, data...)
 	curVR = nil
 	j.reset()
